@@ -729,3 +729,63 @@ def gen_c07(seed, count):
 
 
 PYGEN['py_c07'] = gen_c07
+
+
+def gen_c06(seed, count):
+    """flow control against a small Receive Maximum: the window is filled with QoS 1 / QoS 2 publishes, subscribes and
+    unsubscribes are acknowledged in between (their acknowledgements must not open the window), publish
+    acknowledgements arrive in any order and only partly, more publishes are attempted at every point, the connection
+    is resumed with the same or a different Receive Maximum."""
+    out = []
+    for idx in range(count):
+        r = random.Random((seed << 20) ^ idx ^ 0xC06)
+        rm = r.choice([1, 1, 2, 2, 3, 8])
+        c = Case(rx=64, tx=r.choice([256, 1152]))
+        c.connect(connack(0, 0, [(33, rm)]))
+        pid = 1
+        pubs = {}        # id -> qos, phase
+        others = {}      # id -> 2 subscribe / 3 unsubscribe
+        for _ in range(r.randint(4, 12)):
+            x = r.random()
+            if x < 0.45:
+                q = r.choice([1, 1, 2])
+                c.publish(b'a', bytes([65 + pid % 26]), qos=q)
+                if len([1 for v in pubs.values()]) < rm and len(pubs) + len(others) < 8:
+                    pubs[pid] = [q, 'pub']
+                    pid += 1
+            elif x < 0.6 and len(pubs) + len(others) < 7:
+                kind = r.choice([2, 3])
+                (c.subscribe if kind == 2 else c.unsubscribe)()
+                others[pid] = kind
+                pid += 1
+            elif x < 0.75 and others:
+                p = r.choice(list(others))
+                k = others.pop(p)
+                c.feed(suback(p, (0,), typ=9 if k == 2 else 11)).poll()
+            elif x < 0.92 and pubs:
+                p = r.choice(list(pubs))
+                q, ph = pubs[p]
+                if q == 1:
+                    c.feed(ack(4, p)).poll()
+                    del pubs[p]
+                elif ph == 'pub':
+                    rc = r.choice([None, None, 0x80])
+                    c.feed(ack(5, p, rc)).poll()
+                    if rc:
+                        del pubs[p]
+                    else:
+                        pubs[p][1] = 'rel'
+                else:
+                    c.feed(ack(7, p)).poll()
+                    del pubs[p]
+            else:
+                c.drop()
+                rm = r.choice([rm, rm, 1, 2, 8])
+                c.connect(connack(1, 0, [(33, rm)]))
+                c.poll()
+        c.poll()
+        out.append(c.line())
+    return out
+
+
+PYGEN['py_c06'] = gen_c06
